@@ -3,6 +3,8 @@ package checks
 import (
 	"errors"
 	"fmt"
+	"os"
+	"strings"
 	"time"
 
 	"github.com/bartossh/Computantis/src/accountant"
@@ -212,7 +214,11 @@ func concurrentDupChild(w *core.WorkerCtx, report []string) {
 	desc := fmt.Sprintf("concurrent duplicates with a child seed=%d batch=%d", w.Seed, w.Batch)
 	w.Mark("%s", desc)
 	world := ledger.NewWorld(rng, w.R, report, allSnapOracles, desc)
-	world.SlowVerify = 400 * time.Microsecond
+	if w.Batch%2 == 0 {
+		world.SlowRepeat = 3 * time.Millisecond
+	} else {
+		world.SlowVerify = 600 * time.Microsecond
+	}
 	defer world.Close()
 	if _, err := ledger.Setup(world, ledger.Profile{Nodes: 1, Users: 4, SupplyClass: 0, Delivery: "lockstep"}); err != nil {
 		w.R.Inconc("setup failed: " + err.Error())
@@ -225,7 +231,7 @@ func concurrentDupChild(w *core.WorkerCtx, report []string) {
 		world.Propose(n, &t, "fund")
 	}
 	rounds := w.Pick(40, 200)
-	attached, refused := 0, 0
+	attached, refused, refusedLocked, refusedAfterChild := 0, 0, 0, 0
 	for m := 0; m < rounds; m++ {
 		snap := n.Prev
 		var tip ledger.H
@@ -253,18 +259,35 @@ func concurrentDupChild(w *core.WorkerCtx, report []string) {
 		c := ledger.ForgeVertex(world.Sealers[1], ct, v.Hash, v.Hash, wgt+2, world.Now())
 		world.Hist.Add(&v)
 		world.Hist.Add(&c)
+		world.SlowAfterFirst(v.Hash)
 		k := 2 + rng.Intn(4)
 		errs := make([]error, k)
+		doneAt := make([]time.Time, k)
+		var childAt, childSeen time.Time
 		var cerr error = errors.New("not offered")
 		var fns []func()
 		for i := 0; i < k; i++ {
 			i := i
-			fns = append(fns, func() { errs[i] = n.Book.AddLeaf(world.Ctx, ledger.CloneVertex(&v)) })
+			// the copies arrive spread over two milliseconds: a late one still passes the look-ups when the first is
+			// not through yet, and reaches the lock after the child
+			late := time.Duration(0)
+			if i > 0 && world.SlowRepeat == 0 {
+				late = time.Duration(rng.Intn(2000)) * time.Microsecond
+			}
+			fns = append(fns, func() {
+				if late > 0 {
+					time.Sleep(late)
+				}
+				errs[i] = n.Book.AddLeaf(world.Ctx, ledger.CloneVertex(&v))
+				doneAt[i] = time.Now()
+			})
 		}
 		fns = append(fns, func() {
 			for try := 0; try < 400; try++ {
 				if _, err := n.Book.ReadVertex(world.Ctx, v.Hash); err == nil {
+					childSeen = time.Now()
 					cerr = n.Book.AddLeaf(world.Ctx, ledger.CloneVertex(&c))
+					childAt = time.Now()
 					return
 				}
 				time.Sleep(50 * time.Microsecond)
@@ -272,8 +295,9 @@ func concurrentDupChild(w *core.WorkerCtx, report []string) {
 		})
 		// the same transaction proposed twice at the same moment
 		pt := world.NewTrx(u[1+(m+2)%3], u[0].Addr, spice.Melange{SupplementaryCurrency: 2}, nil)
-		perrs := make([]error, 2)
-		for i := 0; i < 2; i++ {
+		perrs := []error{errors.New("not proposed"), errors.New("not proposed")}
+		for i := 0; i < 2 && m%2 == 1; i++ {
+			// (odd rounds only: a proposal holds the ledger lock for long and would queue every copy before the child)
 			i := i
 			fns = append(fns, func() {
 				t := pt
@@ -285,13 +309,20 @@ func concurrentDupChild(w *core.WorkerCtx, report []string) {
 			})
 		}
 		world.Logf("round %d: %d copies of vertex %s on tip %s, child %s, transaction %s proposed twice", m, k, ledger.Hex(v.Hash), ledger.Hex(tip), ledger.Hex(c.Hash), ledger.Hex(pt.Hash))
+		t0 := time.Now()
 		world.Concurrent(n, fns)
 		oks := 0
-		for _, e := range errs {
-			if e == nil {
+		for i, e := range errs {
+			switch {
+			case e == nil:
 				oks++
-			} else {
-				refused++
+			case !errors.Is(e, accountant.ErrUnexpected) && (errors.Is(e, accountant.ErrLeafAlreadyExists) || errors.Is(e, accountant.ErrTrxInVertexAlreadyExists)):
+				refused++ // by the look-ups made before the lock
+			default:
+				refusedLocked++
+				if cerr == nil && doneAt[i].After(childAt) {
+					refusedAfterChild++
+				}
 			}
 		}
 		if cerr == nil {
@@ -301,6 +332,13 @@ func concurrentDupChild(w *core.WorkerCtx, report []string) {
 			n.Orphans[c.Hash] = true
 		}
 		world.Logf("  results: %d of %d copies admitted, child => %v, proposals => %v / %v", oks, k, cerr, perrs[0], perrs[1])
+		if os.Getenv("VERIF_DEBUG_DUP") != "" {
+			tl := fmt.Sprintf("  timing (us): child seen %d done %d;", childSeen.Sub(t0).Microseconds(), childAt.Sub(t0).Microseconds())
+			for i := range doneAt {
+				tl += fmt.Sprintf(" copy%d done %d ok=%v;", i, doneAt[i].Sub(t0).Microseconds(), errs[i] == nil)
+			}
+			world.Logf("%s", tl)
+		}
 		for _, p := range report {
 			world.EvalFor(p, 1)
 			world.NontrivFor(p, fmt.Sprintf("dup-child/k%d/admitted%d/child-attached=%v/proposals-ok=%d", k, min(oks, 2), cerr == nil, b2i(perrs[0] == nil)+b2i(perrs[1] == nil)))
@@ -315,9 +353,23 @@ func concurrentDupChild(w *core.WorkerCtx, report []string) {
 		mt2 := world.NewTrx(u[0], u[2].Addr, spice.Melange{}, []byte("merge"))
 		world.Propose(n, &mt2, "merge")
 	}
+	if f := os.Getenv("VERIF_DEBUG_DUP"); f != "" && w.Batch == 0 {
+		os.WriteFile(f, []byte(strings.Join(world.Trace, "\n")), 0o644)
+	}
+	if w.Batch == 0 {
+		var res []string
+		for _, l := range world.Trace {
+			if strings.HasPrefix(l, "  results:") && len(res) < 12 {
+				res = append(res, l)
+			}
+		}
+		w.R.Sample(2, map[string]any{"workload": desc, "first_rounds": res})
+	}
 	w.R.Count("dup_child_rounds", rounds)
 	w.R.Count("dup_child_children_attached", attached)
-	w.R.Count("dup_child_copies_refused", refused)
+	w.R.Count("dup_child_copies_refused_by_the_lookups_before_the_lock", refused)
+	w.R.Count("dup_child_copies_refused_inside_the_lock", refusedLocked)
+	w.R.Count("dup_child_copies_refused_inside_the_lock_after_the_child_was_attached", refusedAfterChild)
 }
 
 func b2i(b bool) int {
